@@ -21,6 +21,7 @@ import NV.C07.Model
 import NV.C07.Spec
 import NV.C07.WF
 import NV.C07.Build
+import NV.C07.LemmasBuild
 
 namespace NV.C07
 
@@ -214,7 +215,11 @@ def buildWorld (p : Parsed) (d : Dump) : World :=
   let key (n : String) : Nat := (d.key n).getD (900000 + n.length * 131 + NV.C07.digitsOf n)
   p.srcs.foldl (fun (w : World) (name, items) =>
     let id := ((d.raws.find? (·.name == name)).map (·.id)).getD 0
-    { progs := w.progs ++ [buildProgram w name id (toItems progIdx key items)] }) { progs := [] }
+    let st := (toItems progIdx key items).foldl (doItem w) {}
+    -- the hypothesis of `built_alias_flags_agree`, evaluated on every program built; a violation is made visible
+    -- in the program name, i.e. in the compared `tbl` line
+    let name' := if aliasOrdered st.slots then name else name ++ "!alias-not-ordered"
+    { progs := w.progs ++ [{ finish name id st with name := name' }] }) { progs := [] }
 
 def runModel (body : List String) : List String :=
   let (input, dumped) := splitJudge body
@@ -306,6 +311,35 @@ def abstractionCheck (g : Spec.AGraph) (d : Dump) : List String :=
       if realInh == specInh then acc else acc ++ [s!"abstraction prog={P.name} inherits real={realInh} spec={specInh}"]) []
   ++ (if w.progs.isEmpty && !d.objs.isEmpty then ["abstraction no-tables"] else [])
 
+/-- every runtime slot of every dumped program against the specification: the slot's function name resolves in the
+    abstract graph iff the slot is not NAME_UNDEFINED; if it resolves, the slot chases to the program the resolver
+    names and its modifier bits are the specification's effective modifiers along that path -/
+def slotsAgainstSpec (g : Spec.AGraph) (d : Dump) : List String :=
+  let w := d.world
+  let U := Gen.C07.nameUndefined
+  w.progs.zipIdx.foldl (fun acc (P, pi) =>
+    if (w.progs.take pi).any (·.name == P.name) then acc else     -- a re-compiled copy of the same file
+    let gp := g.indexOf P.name
+    if gp ≥ g.length then acc else
+    (List.range P.flags.length).foldl (fun acc i =>
+      let fl := P.flags.getD i 0
+      match chase w w.fuel pi i 0 0 with
+      | none => acc ++ [s!"build-slot prog={P.name} slot={i} does-not-chase"]
+      | some fr =>
+        let defProg := ((w.progs[fr.prog]?).map (·.name)).getD "?"
+        let fn := ((w.progs[fr.prog]?.bind (·.ft[fr.fidx]?)).map (·.nameStr)).getD "?"
+        match Spec.resolve g.toS gp fn with
+        | none =>
+          if hasBit fl U then acc else acc ++ [s!"build-slot prog={P.name} slot={i} fn={fn} unresolvable-but-not-undefined flags={fl}"]
+        | some path =>
+          let m := Spec.effMods g fn gp path
+          let want := ((g[Spec.endOf g gp path]?).map (·.name)).getD "?"
+          let ok := !(hasBit fl U) && defProg == want &&
+            hasBit fl Gen.C07.nameStatic == m.static && hasBit fl Gen.C07.namePrivate == m.priv &&
+            hasBit fl Gen.C07.nameProtected == m.prot && hasBit fl Gen.C07.namePublic == m.pub
+          if ok then acc
+          else acc ++ [s!"build-slot prog={P.name} slot={i} fn={fn} flags={fl} target={defProg} spec-target={want} spec-mods=static:{m.static},private:{m.priv},protected:{m.prot},public:{m.pub}"]) acc) []
+
 def runJudge (body : List String) : List String :=
   let (input, impl) := splitJudge body
   let p := parseCase input
@@ -330,7 +364,7 @@ def runJudge (body : List String) : List String :=
     let v1 := compareEvs expRev.reverse obs
     let w := d.world
     let v2 := if d.raws.isEmpty then [] else (wfReport w).map (fun s => s!"wf {s}")
-    let v3 := abstractionCheck g d
+    let v3 := abstractionCheck g d ++ slotsAgainstSpec g d
     match v1 ++ v2 ++ v3 with
     | [] => ["ok"]
     | vs => vs.map (fun v => s!"bad {v}")
